@@ -58,32 +58,18 @@ Print Assumptions C08_record_wf.
    CAS / put-if-absent built against the value read; per range checkCompactRace = Get, then the Commit of an
    unconditional Put. Labels of any number of threads interleave with each other and with writes and reads. *)
 
-(* C08_floor_monotone at full strength for this label system is REFUTED on the faithful model (finding C08-F1,
-   reproduced on the real code): compaction 103 is parked between checkCompactRace's Get and Put, compaction 111 runs
-   to completion, 103's Put lowers the floor from 111 to 103; List at 105 is then served *)
-Definition xs0 : xstate := mkX (mkC 112 0 None) [].
-Definition x_witness : list cop :=
-  [CSpawn 1 103 1; CThread 1 PhSetGet; CThread 1 PhSetCommit; CThread 1 PhRaceGet;
-   CSpawn 2 111 1; CThread 2 PhSetGet; CThread 2 PhSetCommit; CThread 2 PhRaceGet; CThread 2 PhRacePut].
-Theorem C08_floor_monotone_concurrent_refuted :
-  floor (xrun xs0 x_witness) = 111 /\ floor (xrun xs0 (x_witness ++ [CThread 1 PhRacePut])) = 103 /\
-  snd (xstep (xrun xs0 (x_witness ++ [CThread 1 PhRacePut])) (CList 105 0)) = ORead RData.
-Proof. vm_compute. repeat split. Qed.
-Print Assumptions C08_floor_monotone_concurrent_refuted.
-
-(* ... and holds for every interleaving in which no thread's unconditional Put lands on a floor above its revision
-   (puts_ok): in particular the steps of setCompactRecord never lower the floor, whatever other compactions do
-   between its Get and its Commit (the lost CAS makes the older request fail) *)
-Theorem C08_floor_monotone_concurrent_except_F1 : forall ops s,
-  xwf s -> c_cur (x_c (xrun s ops)) < two64 -> puts_ok s ops ->
+(* C08_floor_monotone at full strength for this label system: along EVERY interleaving of the engine calls of any
+   number of compaction threads with writes and reads, the floor never decreases (every write of the record is a
+   compare-and-swap / put-if-absent against a value read at or below the writer's revision; a lost compare is re-read) *)
+Theorem C08_floor_monotone_concurrent : forall ops s,
+  xwf s -> c_cur (x_c (xrun s ops)) < two64 ->
   xwf (xrun s ops) /\ floor s <= floor (xrun s ops).
 Proof. exact floor_monotone_x. Qed.
-Print Assumptions C08_floor_monotone_concurrent_except_F1.
+Print Assumptions C08_floor_monotone_concurrent.
 
-(* one step: the floor rises or stays, or the step is such a Put *)
 Theorem C08_concurrent_step : forall s op,
   xwf s -> c_cur (x_c (fst (xstep s op))) < two64 ->
-  xwf (fst (xstep s op)) /\ (floor s <= floor (fst (xstep s op)) \/ lowering s op).
+  xwf (fst (xstep s op)) /\ floor s <= floor (fst (xstep s op)).
 Proof. exact xstep_spec. Qed.
 Print Assumptions C08_concurrent_step.
 
@@ -93,9 +79,8 @@ Theorem C08_accepted_sets_floor_concurrent : forall s i ph s' h,
 Proof. exact thread_accept. Qed.
 Print Assumptions C08_accepted_sets_floor_concurrent.
 
-(* the executable oracle used on the implementation's observations accepts every model run, or names finding 1
-   (only on a step that is the unconditional Put of a compaction thread) *)
-Theorem C08_oracle_sound : forall c, c08_valid c -> c08_check c = true -> c08_oracle c = None \/ c08_oracle c = Some 1.
+(* the executable oracle used on the implementation's observations accepts every model run *)
+Theorem C08_oracle_sound : forall c, c08_valid c -> c08_check c = true -> c08_oracle c = None.
 Proof. exact c08_oracle_sound. Qed.
 Print Assumptions C08_oracle_sound.
 
@@ -130,17 +115,36 @@ Example C08_ex_unconditional_put_lowers :
   floor_of (Some (be64 103)) < floor_of (c_rec (crun ex_s0 [CCompact 111 1 true])).
 Proof. vm_compute. reflexivity. Qed.
 
+Definition xs0 : xstate := mkX (mkC 112 0 None) [].
+(* the schedule that used to lower the floor (finding C08-F1, fixed): compaction 103 is advanced past its
+   setCompactRecord, compaction 111 runs to completion, 103 goes on: its checkCompactRace now finds 111 >= 103 and
+   leaves the record alone; List at 105 stays refused *)
+Example C08_ex_former_F1_witness :
+  let ops := [CSpawn 1 103 1; CThread 1 PhSetGet; CThread 1 PhSetCommit;
+              CSpawn 2 111 1; CThread 2 PhSetGet; CThread 2 PhSetCommit; CThread 2 PhRaceGet] in
+  floor (xrun xs0 ops) = 111 /\
+  xstep (xrun xs0 ops) (CThread 1 PhRaceGet) = (mkX (mkC 112 0 (Some (be64 111))) [], OCompact 103 COk) /\
+  snd (xstep (fst (xstep (xrun xs0 ops) (CThread 1 PhRaceGet))) (CList 105 0)) = ORead RErr.
+Proof. vm_compute. repeat split. Qed.
+(* a lost compare in checkCompactRace is re-read: scanner-level use, no record yet, two scans overlap *)
+Example C08_ex_race_retry :
+  let s := mkX (mkC 112 0 None) [(1, TRaceGet 103 1 1); (2, TRaceGet 111 1 1)] in
+  let ops := [CThread 1 PhRaceGet; CThread 2 PhRaceGet; CThread 2 PhRacePut; CThread 1 PhRacePut] in
+  floor (xrun s ops) = 111 /\ x_thr (xrun s ops) = [(1, TRaceGet 103 1 2)] /\
+  snd (xstep (xrun s ops) (CThread 1 PhRaceGet)) = OCompact 103 COk.
+Proof. vm_compute. repeat split. Qed.
+
 (* overlapping setCompactRecord, both orders: the request whose CAS is lost fails, the floor keeps the other one *)
 Example C08_ex_overlap_low_parked :
-  let ops := [CSpawn 1 103 1; CThread 1 PhSetGet; CSpawn 2 111 1; CThread 2 PhSetGet; CThread 2 PhSetCommit; CThread 2 PhRaceGet; CThread 2 PhRacePut] in
+  let ops := [CSpawn 1 103 1; CThread 1 PhSetGet; CSpawn 2 111 1; CThread 2 PhSetGet; CThread 2 PhSetCommit; CThread 2 PhRaceGet] in
   snd (xstep (xrun xs0 ops) (CThread 1 PhSetCommit)) = OCompact 103 CErr /\
   floor (fst (xstep (xrun xs0 ops) (CThread 1 PhSetCommit))) = 111 /\
   snd (xstep (xrun xs0 ops) (CList 105 0)) = ORead RErr.
 Proof. vm_compute. repeat split. Qed.
 Example C08_ex_overlap_high_parked :
-  let ops := [CSpawn 1 111 1; CThread 1 PhSetGet; CSpawn 2 103 1; CThread 2 PhSetGet; CThread 2 PhSetCommit; CThread 2 PhRaceGet; CThread 2 PhRacePut] in
+  let ops := [CSpawn 1 111 1; CThread 1 PhSetGet; CSpawn 2 103 1; CThread 2 PhSetGet; CThread 2 PhSetCommit; CThread 2 PhRaceGet] in
   snd (xstep (xrun xs0 ops) (CThread 1 PhSetCommit)) = OCompact 111 CErr /\
   floor (fst (xstep (xrun xs0 ops) (CThread 1 PhSetCommit))) = 103.
 Proof. vm_compute. repeat split. Qed.
-Example C08_ex_xwf : xwf xs0 /\ puts_ok xs0 x_witness.
-Proof. split; [split; [left; reflexivity|split; [vm_compute; reflexivity|constructor]]|]. vm_compute. repeat split; discriminate. Qed.
+Example C08_ex_xwf : xwf xs0.
+Proof. split; [left; reflexivity|split; [vm_compute; reflexivity|constructor]]. Qed.
